@@ -57,7 +57,15 @@ func runSolver(s Solver, query string, dir, tag string, timeout time.Duration, s
 	cmd.Run()
 	el := time.Since(t0).Seconds()
 	text := out.String()
-	first := strings.TrimSpace(strings.SplitN(text, "\n", 2)[0])
+	first := ""
+	for _, ln := range strings.Split(text, "\n") {
+		ln = strings.TrimSpace(ln)
+		if ln == "" || strings.HasPrefix(ln, "WARNING") {
+			continue
+		}
+		first = ln
+		break
+	}
 	v := Verdict{Solver: s.Name, Time: el, Output: text}
 	switch first {
 	case "unsat", "sat", "unknown":
